@@ -1,0 +1,150 @@
+//go:build verif
+
+// Machine-checked contracts for package format (comment-only; read by /verif/govc).
+package format
+
+//@ package github.com/basecomplextech/spec/internal/format
+
+// ---- message table: constructors and views
+
+//@ func NewMessageTable
+//@   safety[C02]
+//@   ensures result.table == table && result.data == data && result.big == big
+
+//@ func (MessageTable).Len
+//@   safety[C02]
+//@   ensures result == ite(t.big, len(t.table) / 6, len(t.table) / 3)
+
+//@ func (MessageTable).DataSize
+//@   safety[C02]
+//@   ensures result == t.data
+
+//@ func (messageTable).count
+//@   safety[C02]
+//@   ensures result == ite(big, len(t) / 6, len(t) / 3)
+
+// ---- message table: lookup by tag (binary search over unsafe reads)
+
+//@ func (messageTable).offset_small
+//@   safety[C02]
+//@   let n = len(t) / 3
+//@   ensures[C02] 0 - 1 <= result && result <= 65535
+//@   ensures[C01,C16] result >= 0 ==> exists k :: 0 <= k && k < n && smallTag(mem(t), lo(t), k) == tag && smallOff(mem(t), lo(t), k) == result
+//@   ensures[C01,C16] (forall i, j :: 0 <= i && i < j && j < n ==> smallTag(mem(t), lo(t), i) < smallTag(mem(t), lo(t), j))
+//@        ==> (forall k :: 0 <= k && k < n && smallTag(mem(t), lo(t), k) == tag ==> result == smallOff(mem(t), lo(t), k))
+//@   ensures[C01,C16] (forall i, j :: 0 <= i && i < j && j < n ==> smallTag(mem(t), lo(t), i) < smallTag(mem(t), lo(t), j))
+//@        && (forall k :: 0 <= k && k < n ==> smallTag(mem(t), lo(t), k) != tag) ==> result == 0 - 1
+//@   loop 1 invariant 0 <= left && right < n && left <= right + 1 && n == len(t) / 3 && len(t) >= 3
+//@   assert[C01,C16] after cur: 0 <= middle && middle < n && cur == smallTag(mem(t), lo(t), middle)
+//@   loop 1 invariant[C01,C16] (forall i, j :: 0 <= i && i < j && j < n ==> smallTag(mem(t), lo(t), i) < smallTag(mem(t), lo(t), j))
+//@        ==> (forall k :: 0 <= k && k < left ==> smallTag(mem(t), lo(t), k) < tag)
+//@   loop 1 invariant[C01,C16] (forall i, j :: 0 <= i && i < j && j < n ==> smallTag(mem(t), lo(t), i) < smallTag(mem(t), lo(t), j))
+//@        ==> (forall k :: right < k && k < n ==> smallTag(mem(t), lo(t), k) > tag)
+
+//@ func (messageTable).offset_big
+//@   safety[C02]
+//@   let n = len(t) / 6
+//@   ensures[C02] 0 - 1 <= result && result <= 4294967295
+//@   ensures[C01,C16] result >= 0 ==> exists k :: 0 <= k && k < n && bigTag(mem(t), lo(t), k) == tag && bigOff(mem(t), lo(t), k) == result
+//@   ensures[C01,C16] (forall i, j :: 0 <= i && i < j && j < n ==> bigTag(mem(t), lo(t), i) < bigTag(mem(t), lo(t), j))
+//@        ==> (forall k :: 0 <= k && k < n && bigTag(mem(t), lo(t), k) == tag ==> result == bigOff(mem(t), lo(t), k))
+//@   ensures[C01,C16] (forall i, j :: 0 <= i && i < j && j < n ==> bigTag(mem(t), lo(t), i) < bigTag(mem(t), lo(t), j))
+//@        && (forall k :: 0 <= k && k < n ==> bigTag(mem(t), lo(t), k) != tag) ==> result == 0 - 1
+//@   loop 1 invariant 0 <= left && right < n && left <= right + 1 && n == len(t) / 6 && len(t) >= 6
+//@   assert[C01,C16] after cur: 0 <= middle && middle < n && cur == bigTag(mem(t), lo(t), middle)
+//@   loop 1 invariant[C01,C16] (forall i, j :: 0 <= i && i < j && j < n ==> bigTag(mem(t), lo(t), i) < bigTag(mem(t), lo(t), j))
+//@        ==> (forall k :: 0 <= k && k < left ==> bigTag(mem(t), lo(t), k) < tag)
+//@   loop 1 invariant[C01,C16] (forall i, j :: 0 <= i && i < j && j < n ==> bigTag(mem(t), lo(t), i) < bigTag(mem(t), lo(t), j))
+//@        ==> (forall k :: right < k && k < n ==> bigTag(mem(t), lo(t), k) > tag)
+
+//@ func (MessageTable).Offset
+//@   safety[C02]
+//@   ensures[C02] 0 - 1 <= result && result <= 4294967295
+//@   ensures[C01,C16] !t.big && result >= 0 ==> exists k :: 0 <= k && k < len(t.table) / 3 && smallTag(mem(t.table), lo(t.table), k) == tag && smallOff(mem(t.table), lo(t.table), k) == result
+//@   ensures[C01,C16] t.big && result >= 0 ==> exists k :: 0 <= k && k < len(t.table) / 6 && bigTag(mem(t.table), lo(t.table), k) == tag && bigOff(mem(t.table), lo(t.table), k) == result
+
+// ---- message table: access by index
+
+//@ func (messageTable).offsetByIndex_small
+//@   safety[C02]
+//@   ensures[C02] 0 - 1 <= result && result <= 65535
+//@   ensures[!C02] 0 <= i && i < len(t) / 3 ==> result == smallOff(mem(t), lo(t), i)
+//@   ensures[!C02] i < 0 || i >= len(t) / 3 ==> result == 0 - 1
+
+//@ func (messageTable).offsetByIndex_big
+//@   safety[C02]
+//@   ensures[C02] 0 - 1 <= result && result <= 4294967295
+//@   ensures[!C02] 0 <= i && i < len(t) / 6 ==> result == bigOff(mem(t), lo(t), i)
+//@   ensures[!C02] i < 0 || i >= len(t) / 6 ==> result == 0 - 1
+
+//@ func (MessageTable).OffsetByIndex
+//@   safety[C02]
+//@   ensures[C02] 0 - 1 <= result && result <= 4294967295
+//@   ensures[!C02] !t.big && 0 <= i && i < len(t.table) / 3 ==> result == smallOff(mem(t.table), lo(t.table), i)
+//@   ensures[!C02] t.big && 0 <= i && i < len(t.table) / 6 ==> result == bigOff(mem(t.table), lo(t.table), i)
+
+//@ func (messageTable).field_small
+//@   safety[C02]
+//@   ensures[!C02] 0 <= i && i < len(t) / 3 ==> ok && f.Tag == smallTag(mem(t), lo(t), i) && f.Offset == smallOff(mem(t), lo(t), i)
+//@   ensures[!C02] i < 0 || i >= len(t) / 3 ==> !ok && f.Tag == 0 && f.Offset == 0
+
+//@ func (messageTable).field_big
+//@   safety[C02]
+//@   ensures[!C02] 0 <= i && i < len(t) / 6 ==> ok && f.Tag == bigTag(mem(t), lo(t), i) && f.Offset == bigOff(mem(t), lo(t), i)
+//@   ensures[!C02] i < 0 || i >= len(t) / 6 ==> !ok && f.Tag == 0 && f.Offset == 0
+
+//@ func (MessageTable).Field
+//@   safety[C02]
+//@   ensures[!C02] !t.big && 0 <= i && i < len(t.table) / 3 ==> result1 && result0.Tag == smallTag(mem(t.table), lo(t.table), i)
+//@   ensures[!C02] t.big && 0 <= i && i < len(t.table) / 6 ==> result1 && result0.Tag == bigTag(mem(t.table), lo(t.table), i)
+
+// ---- list table
+
+//@ func NewListTable
+//@   safety[C02]
+//@   ensures result.table == table && result.data == data && result.big == big
+
+//@ func (ListTable).Len
+//@   safety[C02]
+//@   ensures result == ite(t.big, len(t.table) / 4, len(t.table) / 2)
+
+//@ func (ListTable).DataSize
+//@   safety[C02]
+//@   ensures result == t.data
+
+//@ func (listTable).len
+//@   safety[C02]
+//@   ensures result == ite(big, len(t) / 4, len(t) / 2)
+
+//@ func (listTable).offset_small
+//@   safety[C02]
+//@   ensures[C02] 0 - 1 <= result0 && result0 <= 65535 && 0 - 1 <= result1 && result1 <= 65535
+//@   ensures[C02] (0 <= i && i < len(t) / 2) <==> result0 >= 0
+//@   ensures[!C02] 0 <= i && i < len(t) / 2 ==> result1 == listSmallEnd(mem(t), lo(t), i) && result0 == ite(i > 0, listSmallEnd(mem(t), lo(t), i - 1), 0)
+//@   ensures[!C02] i < 0 || i >= len(t) / 2 ==> result0 == 0 - 1 && result1 == 0 - 1
+
+//@ func (listTable).offset_big
+//@   safety[C02]
+//@   ensures[C02] 0 - 1 <= result0 && result0 <= 4294967295 && 0 - 1 <= result1 && result1 <= 4294967295
+//@   ensures[C02] (0 <= i && i < len(t) / 4) <==> result0 >= 0
+//@   ensures[!C02] 0 <= i && i < len(t) / 4 ==> result1 == listBigEnd(mem(t), lo(t), i) && result0 == ite(i > 0, listBigEnd(mem(t), lo(t), i - 1), 0)
+//@   ensures[!C02] i < 0 || i >= len(t) / 4 ==> result0 == 0 - 1 && result1 == 0 - 1
+
+//@ func (ListTable).Offset
+//@   safety[C02]
+//@   ensures[C02] 0 - 1 <= result0 && result0 <= 4294967295 && 0 - 1 <= result1 && result1 <= 4294967295
+//@   ensures[C02] (0 <= i && i < ite(t.big, len(t.table) / 4, len(t.table) / 2)) <==> result0 >= 0
+//@   ensures[!C02] !t.big && 0 <= i && i < len(t.table) / 2 ==> result1 == listSmallEnd(mem(t.table), lo(t.table), i) && result0 == ite(i > 0, listSmallEnd(mem(t.table), lo(t.table), i - 1), 0)
+//@   ensures[!C02] t.big && 0 <= i && i < len(t.table) / 4 ==> result1 == listBigEnd(mem(t.table), lo(t.table), i) && result0 == ite(i > 0, listBigEnd(mem(t.table), lo(t.table), i - 1), 0)
+
+// ---- big/small rule
+
+//@ func IsBigMessage
+//@   safety[C02]
+//@   ensures[C01,C08] result <==> exists k :: 0 <= k && k < len(fields) && (fields[k].Tag > 255 || fields[k].Offset > 65535)
+//@   loop 1 invariant 0 - 1 <= i && i < len(fields)
+//@   loop 1 invariant[C01,C08] forall k :: i < k && k < len(fields) ==> fields[k].Tag <= 255 && fields[k].Offset <= 65535
+
+//@ func IsBigList
+//@   safety[C02]
+//@   ensures[C01,C08] result <==> (len(elements) > 255 || (len(elements) > 0 && elements[len(elements)-1].Offset > 65535))
